@@ -498,7 +498,7 @@ pub fn run_check<S: Sim>(prop: &str, tier: Tier, seed: u64, workers: usize, limi
                     break;
                 }
                 let end = (start + block).min(total);
-                let samples = if b < 3 { 1 } else { 0 };
+                let samples = 0;
                 let mut agg = drive_range::<S>(&prop, tier, seed, start, end, samples, &deaths, dump, stride);
                 acc.hashes.append(&mut agg.hashes);
                 acc.dump.append(&mut agg.dump);
@@ -541,8 +541,17 @@ pub fn run_check<S: Sim>(prop: &str, tier: Tier, seed: u64, workers: usize, limi
     res.hashes.sort_unstable();
     res.dump.sort();
     res.found.sort_by_key(|f| f.run);
-    res.samples.sort_by_key(|s| s["run"].as_u64().unwrap_or(0));
-    res.samples.truncate(3);
+    // samples are written out by the parent itself (generation is a pure function of the seed and the run
+    // index), so that they never depend on which worker survived
+    res.samples.clear();
+    if total > 0 {
+        let mut picks = vec![0u64, (total / 2) * stride, (total - 1) * stride];
+        picks.dedup();
+        for idx in picks {
+            let sc = gen_scenario_with::<S>(&plan, prop, tier, seed, idx);
+            res.samples.push(json!({"run": idx, "scenario": sc}));
+        }
+    }
     res.worker_deaths = deaths.load(Ordering::Relaxed);
     res.wall_s = t0.elapsed().as_secs_f64();
     res
